@@ -67,7 +67,7 @@ def gen_mod(rng) -> dict:
     cls = rng.choice(["Clinical", "Pathological"] + (["Modality"] if base == 2 else []))
     sp, sn = gen.gen_value(rng), gen.gen_value(rng)
     edit = rng.choice(["same", "spec", "sens", "both", "kind", "kind", "kindcompl", "kindcompl", "kindvalue", "swap",
-                       "sens_to_spec", "spec_to_sens"])
+                       "sens_to_spec", "spec_to_sens", "arity"])
     a = [cls, sp, sn]
     b = [cls, sp, sn]
     flip = {"Clinical": "Pathological", "Pathological": "Clinical", "Modality": "Pathological"}
@@ -100,6 +100,10 @@ def gen_mod(rng) -> dict:
         via = "ctor"
     if via == "model" and "Modality" in (a[0], b[0]):
         via = "ctor"
+    if edit == "arity":                  # the same modality as binary (a) and trinary (b): == must be False, not raise
+        if cls == "Modality":
+            cls = a[0] = b[0] = "Clinical"
+        return {"kind": "mod", "base": 2, "base_b": 3, "a": a, "b": b, "via": rng.choice(["ctor", "setter"]), "edit": edit}
     return {"kind": "mod", "base": base, "a": a, "b": b, "via": via, "edit": edit}
 
 
@@ -379,7 +383,15 @@ def leaves_of(model, cls, midcfg):
 def impl_mod(c):
     tri = c["base"] == 3
     (ca, spa, sna), (cb, spb, snb) = c["a"], c["b"]
-    if c["via"] == "model":
+    if c.get("base_b"):
+        a = _mod_cls(ca)(spa, sna, tri)
+        if c["via"] == "setter":
+            b = _mod_cls(cb)(spb, snb, tri)
+            hash(b)
+            b.is_trinary = c["base_b"] == 3
+        else:
+            b = _mod_cls(cb)(spb, snb, c["base_b"] == 3)
+    elif c["via"] == "model":
         m = make_model("uni", c["base"])
         m.set_modality("A", spa, sna, _kind(ca))
         m.set_modality("B", spb, snb, _kind(cb))
@@ -586,6 +598,9 @@ def coq_expr(c):
     if k == "mod":
         b = nat(c["base"])
         ma, mb = coq_mod(*c["a"]), coq_mod(*c["b"])
+        if c.get("base_b"):
+            b2 = nat(c["base_b"])
+            return f"(mod_key_out {b} {ma}, mod_key_out {b2} {mb}, mod_eq2 {b} {b2} {ma} {mb})"
         return f"(mod_key_out {b} {ma}, mod_key_out {b} {mb}, mod_eq {b} {ma} {mb})"
     if k == "dist":
         t = nat(c["maxt"])
